@@ -3,11 +3,13 @@
 # in work/ (run the 20 quick checks first).  Builds an instrumented copy of the harness with the nightly toolchain
 # (-C instrument-coverage) under /tmp/cov, merges the profiles with nightly's llvm-profdata and prints the report plus
 # every uncovered line that is not Display/Debug/Arbitrary code.  Used to find generator gaps; not part of any check.
+# (LLVM_PROFILE_FILE is set during the build too: instrumented build scripts / proc macros would otherwise drop
+# default_*.profraw files into the crate directories, /repo included.)
 set -e
 ROOT=$(cd "$(dirname "$0")/.." && pwd)
 B=$HOME/.rustup/toolchains/nightly-x86_64-unknown-linux-gnu/lib/rustlib/x86_64-unknown-linux-gnu/bin
 rm -rf /tmp/cov && mkdir -p /tmp/cov/prof && cp -r "$ROOT/harness" /tmp/cov/harness && rm -rf /tmp/cov/harness/target
-(cd /tmp/cov/harness && CARGO_NET_OFFLINE=true RUSTFLAGS="-C instrument-coverage --cfg rust_crdt_rust_crdt_verif" cargo +nightly build --release --offline 2>&1 | tail -1)
+(cd /tmp/cov/harness && LLVM_PROFILE_FILE=/tmp/cov/build-%p.profraw CARGO_NET_OFFLINE=true RUSTFLAGS="-C instrument-coverage --cfg rust_crdt_rust_crdt_verif" cargo +nightly build --release --offline 2>&1 | tail -1)
 ls "$ROOT"/work/script_*.txt | xargs -P 8 -I{} sh -c 'LLVM_PROFILE_FILE=/tmp/cov/prof/%p-%m.profraw /tmp/cov/harness/target/release/verif-harness run {} > /dev/null 2>&1'
 $B/llvm-profdata merge -sparse /tmp/cov/prof/*.profraw -o /tmp/cov/all.profdata
 $B/llvm-cov report /tmp/cov/harness/target/release/verif-harness -instr-profile=/tmp/cov/all.profdata --sources /repo/src | awk '{print $1, $8, $9, $10}'
